@@ -4,8 +4,12 @@
    Numbers are Z.  Go's [int] fields are int64 on the supported platform.  The float64
    computation [min(float64(Cap), float64(Base) * Pow(float64(Factor), float64(attempt)))],
    saturated at maxMs and converted to int64, is modelled by exact integer arithmetic
-   ([expo], [max_ms]); that the two agree is checked differentially by the correspondence
-   run (DESIGN.md 6.C19, "Partial").  The conversion [time.Duration(d) * time.Millisecond]
+   ([expo], [max_ms]).  That the two agree is NOT proved from a float64 semantics.  What is
+   proved (Props/C19.v C19_float_robust): the result is the integer one for ANY rounding
+   that (i) is exact on values below 2^53 and (ii) leaves values >= 2^53 at or above 2^52
+   (+Inf included), because everything above max_ms (about 2^43.07) saturates.  That
+   float64(int), * and math.Pow meet (i) and (ii) is trusted and checked differentially
+   by the correspondence run (DESIGN.md 6.C19, "Partial").  The conversion [time.Duration(d) * time.Millisecond]
    is written with its int64 wrap ([to_duration]) and proved not to wrap.
 
    Domain (what the property quantifies over; the correspondence glue answers a constant
@@ -117,13 +121,23 @@ Fixpoint dur_seq (b : backoff) (rs : list Z) : backoff * list outcome :=
 (* a freshly constructed value: backoff{NoJitter: nj, Base: b, Factor: f, Cap: c} *)
 Definition fresh (nj : bool) (b f c : Z) : backoff := mkBackoff nj b f c 0.
 
-(* StreamManager.resume(): every outage (loss of the session until the next successful
-   Resume) runs its retry loop on a fresh local backoff value -- which is what reset()
-   amounts to.  [outages b ms]: for each outage with m failed attempts, the m waits. *)
+(* StreamManager.resume() (stream_manager.go): every outage (loss of the session
+   until the next successful Resume) runs its retry loop on a fresh local value
+   [var backoff backoff] -- NoJitter false, Base/Factor/Cap unset -- which is what reset()
+   amounts to.  [outages_r b rss]: for each outage, given the oracle values rs of its
+   failed attempts (one jitter draw per wait), the waits.  [outages b ms] is the same with
+   the oracle fixed to 0 and only the NUMBER m of failed attempts of each outage given
+   (used with NoJitter = true by the correspondence glue to compute upper bounds). *)
 Definition zeros (n : Z) : list Z := repeat 0 (Z.to_nat n).
 
-Fixpoint outages (b : backoff) (ms : list Z) : list (list outcome) :=
-  match ms with
+Fixpoint outages_r (b : backoff) (rss : list (list Z)) : list (list outcome) :=
+  match rss with
   | [] => []
-  | m :: ms' => let '(b1, os) := dur_seq (reset b) (zeros m) in os :: outages b1 ms'
+  | rs :: rss' => let '(b1, os) := dur_seq (reset b) rs in os :: outages_r b1 rss'
   end.
+
+Definition outages (b : backoff) (ms : list Z) : list (list outcome) :=
+  outages_r b (map zeros ms).
+
+(* the value resume() declares (stream_manager.go: var backoff backoff) *)
+Definition stream_manager_backoff : backoff := mkBackoff false 0 0 0 0.
